@@ -215,12 +215,70 @@ def strip_(e):
     return e if isinstance(e, dict) else {}
 
 
+def n6(body):
+    """N6: `let Self { a, b: c, .. } = self;` (or the type's own name) - the bindings are the fields of `self`: uses of `a`
+    read as `self.a`, the `let` is dropped.  Skipped when a bound name is rebound or already used before the `let`."""
+    for blk in [n for n in walk(body) if n["k"] == "Block"]:
+        stmts = blk["stmts"]
+        i = 0
+        while i < len(stmts):
+            s_ = stmts[i]
+            if s_.get("k") == "Local" and s_.get("else") is None and s_.get("init") is not None and s_["pat"]["k"] == "PStruct" and strip_(s_["init"]).get("k") == "Path" and strip_(s_["init"])["path"] == "self":
+                binds = {}
+                ok = True
+                for f in s_["pat"]["fields"]:
+                    p = f["pat"]
+                    while p["k"] == "PRef":
+                        p = p["pat"]
+                    if p["k"] == "PIdent" and p.get("sub") is None:
+                        binds[p["name"]] = f["name"]
+                    elif p["k"] != "PWild":
+                        ok = False
+                rest = stmts[i + 1:]
+                rebound = {b["name"] for r in rest for b in walk(r) if b["k"] == "PIdent"} & set(binds)
+                if ok and binds and not rebound:
+                    for r in rest:
+                        _fields_of_self(r, binds)
+                    del stmts[i]
+                    continue
+            i += 1
+
+
+def _fields_of_self(node, binds):
+    if isinstance(node, list):
+        for x in node:
+            _fields_of_self(x, binds)
+        return
+    if not isinstance(node, dict):
+        return
+    if node.get("k") == "Path" and node["path"] in binds:
+        fld = {"k": "Field", "line": node.get("line", 0), "base": {"k": "Path", "line": node.get("line", 0), "path": "self"}, "member": binds[node["path"]]}
+        node.clear()
+        node.update(fld)
+        return
+    if node.get("k") == "Struct":
+        for f in node["fields"]:
+            if f.get("shorthand") and f["name"] in binds:
+                f["shorthand"] = False
+    if node.get("k") == "Macro" and not node.get("parsed"):
+        import re
+
+        raw = node.get("raw", "")
+        for a, b in binds.items():
+            raw = re.sub(r"(?<![\w.])%s(?!\w)" % re.escape(a), "self." + b, raw)
+        node["raw"] = raw
+    for v in node.values():
+        if isinstance(v, (dict, list)):
+            _fields_of_self(v, binds)
+
+
 def normalise_fn(fn):
     body = fn.get("body")
     if not body:
         return
     n1(fn)
     n3(body)
+    n6(body)
     n5(body)
     for i in fn["sig"]["inputs"]:
         if not i.get("self") and i.get("pat"):
